@@ -13,18 +13,35 @@ import copy
 import datetime
 import html as _html
 import itertools
+import os
 import string
 
-from core import enc_bool, enc_opt, enc_str, enc_str_list
+import functools
+
+from core import enc_bool, enc_opt
 from lib_c15 import PROBE, LogFile, SpyList, canon, decode, read_html, visible, _canon_params
 
 PROPERTY = "C15"
 
+
+def enc_str(s):
+    """Same encoding as core.enc_str (space-separated decimal code points), faster on long strings."""
+    return " ".join(map(str, map(ord, s)))
+
+
+def enc_str_list(l):
+    return f"{len(l)}:" + ",".join(enc_str(x) for x in l)
+
+
 # CODE VARIANT FLAGS — the variant of the code the model is compared with (Model/Console.lean `Variant`).
 # Values match TODAY's /repo.
+# (For checking a pending fix:  VERIF_REPO=<worktree> VERIF_C15_FLAGS=<3 digits> ./check C15  overrides them for one run.)
 RECORD_IN_RENDER = 1  # 1: `_render_buffer` appends to the record, so `end_capture` records (F17).  0: repaired.
 MERGE_CTL = 0  # 0: Segment.simplify never merges into/after a control segment (F18 repaired in b97fe77).
 ESCAPE_HREF = 0  # 0: export_html writes style.link verbatim into href="…".  1: repaired (html.escape).
+
+if os.environ.get("VERIF_C15_FLAGS"):
+    RECORD_IN_RENDER, MERGE_CTL, ESCAPE_HREF = (int(ch) for ch in os.environ["VERIF_C15_FLAGS"])
 
 FIXED_DT = datetime.datetime(2020, 1, 2, 3, 4, 5)
 CTL_CODES = ["\x07", "\x1b[2J", "\x1b[H", "\x1b[1A\x1b[2K", "\r", "\x1b[?25l", "\x08"]
@@ -99,6 +116,8 @@ def make_console(cfg, record=None):
     )
     spy = SpyList()
     c._thread_locals.buffer = spy
+    c._c15_cm = bool(cfg.get("cm"))  # harness-side attributes: capture through `with console.capture()` or begin/end_capture
+    c._c15_caps = []
     return c, f, spy
 
 
@@ -123,6 +142,8 @@ def _log(c, objs, kw):
 
 
 def apply(c, op, theme):
+    from rich.console import CaptureError
+
     k = op[0]
     if k == "print":
         return c.print(*[build(r) for r in op[1]], **kwargs_of(op[2]))
@@ -147,8 +168,22 @@ def apply(c, op, theme):
     if k == "cursor":
         return c.show_cursor(op[1])
     if k == "begin":
+        if getattr(c, "_c15_cm", False):  # through the public context manager
+            cap = c.capture()
+            try:
+                cap.get()
+                raise AssertionError("Capture.get() before the block ended did not raise CaptureError")
+            except CaptureError:
+                pass
+            cap.__enter__()
+            c._c15_caps.append(cap)
+            return None
         return c.begin_capture()
     if k == "end":
+        if getattr(c, "_c15_cm", False) and c._c15_caps:
+            cap = c._c15_caps.pop()
+            cap.__exit__(None, None, None)
+            return cap.get()
         return c.end_capture()
     if k == "text":
         return c.export_text(clear=op[1], styles=op[2])
@@ -211,6 +246,7 @@ class Enc:
 FIELDS = {"code": "c", "stylesheet": "s", "foreground": "f", "background": "b"}
 
 
+@functools.lru_cache(maxsize=64)
 def template_items(fmt):
     items = []
     for lit, field, spec, conv in string.Formatter().parse(fmt):
@@ -464,16 +500,14 @@ def eval_history(ctx, cfg, ops, tag):
     head = [f"{RECORD_IN_RENDER}{MERGE_CTL}{ESCAPE_HREF}", model_config(cfg), table, "/".join(enc_ops)]
     shape = f"{tag}:len{min(len(ops) // 5 * 5, 40)}"
     sample = f"{cfg!r} {ops!r}" if len(repr(ops)) < 700 else None
-    ctx.case("c15_hist", head + ["file"], enc_str_list([canon(w) for w in f.writes]), shape=shape, sample=sample)
-    ctx.case("c15_hist", head + ["outs"], ",".join(outs))
-    ctx.case("c15_hist", head + ["record"], final_rec)
-    ctx.case("c15_hist", head + ["state"], final_state)
+    answer = "\t".join([enc_str_list([canon(w) for w in f.writes]), ",".join(outs), final_rec, final_state])
+    ctx.case("c15_hist", head + ["all"], answer, shape=shape, sample=sample)
     ctx.note(f"styles:{min(len(enc.reps), 8)}")
     ctx.note(f"cfg:cs={cfg['color_system']},term={cfg['force_terminal']},nocolor={cfg['no_color']}")
 
 
 # ------------------------------------------------------------------ generators
-BASE_CFG = dict(width=20, force_terminal=True, color_system="truecolor", no_color=None, legacy_windows=False, environ={}, record=True, log_time=False, theme=False)
+BASE_CFG = dict(width=20, force_terminal=True, color_system="truecolor", no_color=None, legacy_windows=False, environ={}, record=True, log_time=False, theme=False, cm=True)
 
 
 def cfg_with(**kw):
@@ -484,7 +518,7 @@ def cfg_with(**kw):
 
 SMALL_CONFIGS = [
     cfg_with(),
-    cfg_with(force_terminal=False, color_system=None),
+    cfg_with(force_terminal=False, color_system=None, cm=False),
     cfg_with(color_system="standard", no_color=True),
     cfg_with(force_terminal=False, color_system="256", width=7),
     cfg_with(environ={"TERM": "dumb"}),
@@ -680,6 +714,7 @@ def gen_config(rng):
         record=True,
         log_time=False,  # LogRender omits a repeated time: with it on, what log() renders depends on earlier logs (twin oracle)
         theme=rng.random() < 0.25,
+        cm=rng.random() < 0.5,
     )
 
 
@@ -718,15 +753,15 @@ def run(ctx):
     L = 3 if ctx.quick else 4
     configs = SMALL_CONFIGS[:4] if ctx.quick else SMALL_CONFIGS
     n = 0
-    for cfg in configs:
-        for ops in small_histories(L if cfg is not configs[0] or ctx.quick else L):
+    for ci, cfg in enumerate(configs):
+        for ops in small_histories(L if ctx.quick or ci < 3 else 3):
             eval_history(ctx, cfg, ops, "small")
             n += 1
     ctx.note("small_histories", n)
     ctx.flush()
 
     # ---- 2. seeded random histories over rich renderables and all configurations
-    n_rand = 1500 if ctx.quick else 60000
+    n_rand = 1500 if ctx.quick else 40000
     for _ in range(n_rand):
         cfg = gen_config(rng)
         ops = gen_history(rng, rng.randint(1, 14), bad_links=False)
@@ -768,8 +803,9 @@ def run(ctx):
             ctx.case("c15_escape_attr", [enc_str(s)], enc_str(_html.escape(s, quote=True)))
     ctx.flush()
     ctx.rule = (
-        "every history of <= %d operations over 12 operations (print with <,>,&; adjacent equal styles; link; bell; line; "
-        "begin/end capture; 4 exports) x %d configurations, each followed by 6 closing exports; + seeded random histories "
+        "every history of <= %d operations (<= 3 on the last three configurations of the thorough tier) over 12 operations "
+        "(print with <,>,&; adjacent equal styles; link; bell; line; begin/end capture; 4 exports) x %d configurations, each "
+        "followed by 6 closing exports; + seeded random histories "
         "(<= 14 operations over print/log/rule/out/line/control/bell/clear/show_cursor/capture/export with Text, markup, Panel, "
         "Padding, Styled, Table, Control renderables) x random configurations; + links needing attribute escaping; + malformed "
         "(unbalanced end_capture, record=False, empty link). distinct = distinct canonical requests (4 observations per history)"
@@ -813,7 +849,31 @@ def _detuple(o):
 
 
 MANIFEST = {
-    "text": "placeholder",
-    "note": "placeholder",
+    "text": "Lean 4 theorems (Props/C15.lean) over an executable model of Console's buffer / _check_buffer / _render_buffer / "
+    "begin_capture / end_capture / line / control / bell / clear / show_cursor / export_text / export_html (Model/Console.lean), "
+    "for operation histories of any length, every console configuration the code branches on (record, colour system None or "
+    "not, terminal or not, dumb TERM, NO_COLOR, legacy_windows) and every style table: record_tracks_file (the record grows by "
+    "exactly the buffers that are rendered for the file, in order) => export_text_eq_visible (exported text = text of the "
+    "non-control pieces written to the file since the last clearing export); export_html_text (the {code} string with tags "
+    "removed and the three entities decoded = the exported text, both inline_styles modes; unescape(escape s) = s proved at "
+    "string level; simplify + filter_control lose only control segments); export_styled_decodes (same characters in the "
+    "wrapper of their own segment's style; equal to the file's stream when colour is on); capture_returns_and_withholds (a "
+    "non-nested block returns character for character what the same operations write outside a capture, nothing reaches the "
+    "file at depth >= 1, nothing is recorded); clear_semantics. Proved for the repaired variant; `old_...` witnesses (by "
+    "evaluation) show today's code violating them. Tie: ~8k (quick) / ~250k (thorough) histories per run executed on real "
+    "rich.console.Console and on the model (file writes, every return value, final record, buffer and depth compared), plus the "
+    "theorems' executable statements evaluated on rich's own outputs with independent oracles (terminal-stream tokenizer, "
+    "html.parser, twin console).",
+    "note": "Partial / assumed: (1) styles are opaque ids; style.render(text) = pre+text+post, bool(style), without_color, "
+    "get_html_style, link are parameters read off the real Style objects per case (their meaning is C03/C06). (2) What "
+    "print/log/rule/out append to the buffer (rendering, split_and_crop_lines) is an input observed on the real console, not "
+    "modelled. (3) 'Visible text of the file' is stated on structured pieces (escape wrapper / text / control), and HTML tags on "
+    "structured fragments for which the string-level stripTags is proved; the string-level reading of ANSI escapes is done by the "
+    "harness tokenizer only. (4) Escape codes are compared after canonicalising link ids and SGR colour parameters (F7 makes exact "
+    "colour codes history dependent). (5) Nested capture blocks: the theorem covers blocks without begin/end inside; on the code "
+    "as it is an inner end_capture returns the enclosing block's pending output (witness nested_capture_steals, finding "
+    "nested-capture-steals). (6) Only the {code} part of the HTML document is covered by export_html_text; the template is "
+    "covered by the correspondence. (7) Single thread, is_jupyter False, no render hooks, pager and save_* out of scope. "
+    "Open findings on today's tree: capture-recorded (F17), html-href-unescaped, nested-capture-steals.",
     "design_ref": "DESIGN.md section 7, C15",
 }
